@@ -174,6 +174,47 @@ pub fn encode(ev: &Ev) -> Option<String> {
     }
 }
 
+/// Alternative spellings of the same control sequence, chosen round-robin (generator convenience only - the bytes
+/// actually fed are logged and parsed by the specification's own recogniser): the C1 introducer, parameters padded
+/// with zeros to five digits, and an aborted CSI / a `$`-skipped CSI in front (neither delivers anything, but
+/// both leave collector state behind if the parser forgets to clear it).
+fn respell(enc: String, n: u64) -> String {
+    if enc.starts_with('\x1b') && !enc.starts_with("\x1b[") {
+        // other escape sequences and OSC strings: only the prefixes
+        return match n % 8 {
+            5 => format!("\x1b[47\x18{}", enc),
+            6 => format!("\x1b[?2$p{}", enc),
+            _ => enc,
+        };
+    }
+    if !enc.starts_with("\x1b[") {
+        return enc;
+    }
+    let body = &enc[2..];
+    match n % 8 {
+        2 => format!("\u{9b}{}", body),
+        3 => {
+            let mut out = String::from("\x1b[");
+            let mut digits = String::new();
+            for c in body.chars() {
+                if c.is_ascii_digit() {
+                    digits.push(c);
+                } else {
+                    if !digits.is_empty() {
+                        out.push_str(&format!("{:0>5}", digits));
+                        digits.clear();
+                    }
+                    out.push(c);
+                }
+            }
+            out
+        }
+        5 => format!("\x1b[47\x18{}", enc),
+        6 => format!("\x1b[?2$p{}", enc),
+        _ => enc,
+    }
+}
+
 pub struct Machine {
     pub tap: Arc<Mutex<Tap>>,
     parser: Option<Parser<'static, Tap>>,
@@ -183,6 +224,7 @@ pub struct Machine {
     pub out: Vec<String>,
     collect: bool,
     collected: Vec<Ev>,
+    wire_n: u64,
 }
 
 fn lock(t: &Arc<Mutex<Tap>>) -> std::sync::MutexGuard<'_, Tap> {
@@ -208,6 +250,7 @@ impl Machine {
             out: Vec::new(),
             collect: false,
             collected: Vec::new(),
+            wire_n: h.id.bytes().map(|b| b as u64).sum(),
         };
         m.out.push(format!(
             "{{\"k\":\"new\",\"id\":{},\"sid\":{},\"C\":{},\"L\":{},\"scr\":{},\"utf8\":{},\"post\":{}}}",
@@ -321,7 +364,8 @@ impl Machine {
             }
             _ => match e.port.as_str() {
                 "chars" | "bytes" => {
-                    let enc = match encode(&e.ev) { Some(x) => x, None => return };
+                    let enc = match encode(&e.ev) { Some(x) => respell(x, self.wire_n), None => return };
+                    self.wire_n += 1;
                     if e.port == "chars" {
                         self.ensure_parser();
                         lock(&self.tap).src = "chars";
